@@ -160,36 +160,132 @@ def evaluate_multiname_order(run):
     core.explore(body, on_path)
 
 
-# the sets that are iterated on the way to an ordered answer, each with the reason its order cannot reach the output
+# the sets whose iteration order can leave the constructing expression (returned, iterated, passed on), each with the reason the order
+# cannot reach an answer; sets used only for membership / size / set algebra / sorted(...) need no entry (order_can_escape decides)
 SET_SITES_ALLOWED = {
     ('supp/scope.py', 'Flow.parent_names'): (3, 'nameset / nrow / outer_names: rows are re-ordered by MultiName.__init__ (proved above); table key order never reaches an output (assist sorts, lint walks reads and regions)'),
     ('supp/name.py', 'AdditionalNameWrapper.attr_list'): (2, 'a set of attribute names: assist sorts'),
     ('supp/name.py', 'CompositeValue.attr_list'): (1, 'a set of attribute names: assist sorts'),
     ('supp/name.py', 'MultiValue.attr_list'): (1, 'a set of attribute names: assist sorts'),
-    ('supp/assistant.py', 'assist'): (2, 'set(plist) | set(names): sorted'),
-    ('supp/project.py', 'Project.__init__'): (1, 'dyn_modules: membership tests only'),
     ('supp/project.py', 'Project.list_packages'): (1, 'a set of names: its only consumer sorts'),
-    ('supp/linter.py', 'lint'): (1, 'qualified_imports: membership tests only'),
-    ('supp/evaluator.py', 'EvalCtx.__init__'): (1, 'nodes: membership tests only'),
-    ('supp/scope.py', 'Scope.__init__'): (3, 'locals / globals / nonlocals: membership tests and set difference only'),
+    ('supp/scope.py', 'Scope.__init__'): (2, 'locals / globals: iterated only to build dictionaries (parent_names) and sets; key order never reaches an output'),
 }
+
+
+ORDER_FREE_CALLS = ('sorted', 'len', 'any', 'all', 'sum', 'bool', 'set', 'frozenset', 'min', 'max', 'isinstance')
+ORDER_FREE_METHODS = ('add', 'update', 'discard', 'remove', 'clear', 'difference_update', 'intersection_update', 'symmetric_difference_update',
+                      'issubset', 'issuperset', 'isdisjoint', '__contains__')
+SET_VALUED_METHODS = ('difference', 'union', 'intersection', 'symmetric_difference', 'copy')
+
+
+def order_can_escape(node, parents, fn_node, all_trees):
+    """syntactic frame analysis of ONE set-valued expression: None when every use of the value is insensitive to iteration order
+    (membership, size, truth, set algebra, sorted(...), mutation), else a description of the first use that may observe the order"""
+    import ast
+    par = parents.get(node)
+    if par is None:
+        return 'no context'
+    if isinstance(par, ast.Expr):
+        return None
+    if isinstance(par, ast.Call):
+        if node in par.args and isinstance(par.func, ast.Name) and par.func.id in ORDER_FREE_CALLS:
+            if par.func.id in ('set', 'frozenset'):
+                return order_can_escape(par, parents, fn_node, all_trees)
+            return None
+        if isinstance(par.func, ast.Attribute) and node in par.args and par.func.attr in ORDER_FREE_METHODS + SET_VALUED_METHODS:
+            return None        # an argument of a set operation of another set
+        return 'passed to %s()' % (ast.unparse(par.func),)
+    if isinstance(par, ast.Attribute) and par.value is node:
+        gp = parents.get(par)
+        if isinstance(gp, ast.Call) and gp.func is par:
+            if par.attr in ORDER_FREE_METHODS:
+                return None
+            if par.attr in SET_VALUED_METHODS:
+                return order_can_escape(gp, parents, fn_node, all_trees)
+            return 'method .%s()' % par.attr
+        return 'attribute .%s' % par.attr
+    if isinstance(par, ast.Compare):
+        if node in par.comparators and all(isinstance(o, (ast.In, ast.NotIn, ast.Eq, ast.NotEq, ast.LtE, ast.GtE, ast.Lt, ast.Gt)) for o in par.ops):
+            return None
+        if node is par.left and all(isinstance(o, (ast.Eq, ast.NotEq, ast.LtE, ast.GtE, ast.Lt, ast.Gt)) for o in par.ops):
+            return None
+        return 'comparison'
+    if isinstance(par, ast.BinOp) and isinstance(par.op, (ast.BitOr, ast.BitAnd, ast.Sub, ast.BitXor)):
+        return order_can_escape(par, parents, fn_node, all_trees)
+    if isinstance(par, (ast.BoolOp, ast.IfExp)):
+        return order_can_escape(par, parents, fn_node, all_trees) if not (isinstance(par, ast.IfExp) and par.test is node) else None
+    if isinstance(par, (ast.If, ast.While, ast.Assert)) and par.test is node:
+        return None
+    if isinstance(par, ast.UnaryOp) and isinstance(par.op, ast.Not):
+        return None
+    if isinstance(par, ast.AugAssign) and par.value is node and isinstance(par.op, (ast.BitOr, ast.BitAnd, ast.Sub, ast.BitXor)):
+        return None
+    if isinstance(par, ast.comprehension) and par.iter is node:
+        comp = parents.get(par)
+        if isinstance(comp, ast.SetComp):
+            return order_can_escape(comp, parents, fn_node, all_trees)
+        if isinstance(comp, ast.GeneratorExp):
+            cp = parents.get(comp)
+            if isinstance(cp, ast.Call) and isinstance(cp.func, ast.Name) and cp.func.id in ORDER_FREE_CALLS:
+                return order_can_escape(cp, parents, fn_node, all_trees) if cp.func.id in ('set', 'frozenset') else None
+        return 'iterated by a comprehension'
+    if isinstance(par, (ast.For, ast.AsyncFor)) and par.iter is node:
+        return 'iterated by a for loop'
+    if isinstance(par, (ast.Assign, ast.AnnAssign)) and par.value is node:
+        tgts = par.targets if isinstance(par, ast.Assign) else [par.target]
+        for t in tgts:
+            if isinstance(t, ast.Name):
+                scope = fn_node if fn_node is not None else all_trees[0]
+                for u in ast.walk(scope):
+                    if isinstance(u, ast.Name) and u.id == t.id and isinstance(u.ctx, ast.Load):
+                        why = order_can_escape(u, parents, fn_node, all_trees)
+                        if why:
+                            return '%s (through the variable %s, line %d)' % (why, t.id, u.lineno)
+            elif isinstance(t, ast.Attribute):
+                for tree in all_trees:
+                    for u in ast.walk(tree):
+                        if isinstance(u, ast.Attribute) and u.attr == t.attr and isinstance(u.ctx, ast.Load):
+                            why = order_can_escape(u, PARENTS[id(tree)], None, all_trees)
+                            if why:
+                                return '%s (through the attribute .%s, line %d)' % (why, t.attr, u.lineno)
+            else:
+                return 'assigned to %s' % ast.unparse(t)
+        return None
+    if isinstance(par, ast.Return):
+        return 'returned'
+    return 'used in %s' % type(par).__name__
+
+
+PARENTS = {}
 
 
 @harness(['C17'], 'supp/*.py [frame scan: sets on the way to ordered output]')
 def set_sites_scan(run):
     """mechanical scan of the modules between the entry points and the answers (assistant, linter, evaluator, name, scope, project, nast,
-    module, merged_dict): every construction of a set (set(...), frozenset(...), set display, set comprehension) sits in a function
-    listed with the reason its iteration order cannot reach an ordered result; no use of id(), hash(), random, time in those modules"""
+    module, merged_dict): for every construction of a set (set(...), frozenset(...), set display, set comprehension) either every use of the
+    value is insensitive to iteration order (membership, size, set algebra, sorted(...), mutation: decided syntactically, through local
+    variables and attributes), or it sits in a function listed with the reason its iteration order cannot reach an ordered result.  A new set
+    whose order may escape and which is not listed leaves the frame condition UNDECIDED (it is not reported as a violation: the behavioural
+    obligations above decide that).  No use of id(), hash(), random, time in those modules"""
     import ast
     import os
 
     def go(path):
         found = {}
         banned = []
-        for mod in ('assistant', 'linter', 'evaluator', 'name', 'scope', 'project', 'nast', 'module', 'merged_dict'):
+        trees = {}
+        mods = ('assistant', 'linter', 'evaluator', 'name', 'scope', 'project', 'nast', 'module', 'merged_dict')
+        for mod in mods:
             fn = os.path.join(core.REPO, 'supp', mod + '.py')
             tree = ast.parse(open(fn).read())
+            trees[mod] = tree
+            PARENTS[id(tree)] = {c: p for p in ast.walk(tree) for c in ast.iter_child_nodes(p)}
+        all_trees = list(trees.values())
+        for mod in mods:
+            tree = trees[mod]
+            parents = PARENTS[id(tree)]
             stack = []
+            fstack = []
 
             class V(ast.NodeVisitor):
                 def visit_ClassDef(self, n):
@@ -199,13 +295,16 @@ def set_sites_scan(run):
 
                 def visit_FunctionDef(self, n):
                     stack.append(n.name)
+                    fstack.append(n)
                     self.generic_visit(n)
+                    fstack.pop()
                     stack.pop()
                 visit_AsyncFunctionDef = visit_FunctionDef
 
                 def hit(self, n):
                     key = ('supp/%s.py' % mod, '.'.join(stack) or '<module>')
-                    found[key] = found.get(key, 0) + 1
+                    why = order_can_escape(n, parents, fstack[-1] if fstack else None, [tree] + [t for t in all_trees if t is not tree])
+                    found.setdefault(key, []).append((n.lineno, why))
 
                 def visit_Call(self, n):
                     if isinstance(n.func, ast.Name) and n.func.id in ('set', 'frozenset'):
@@ -227,10 +326,228 @@ def set_sites_scan(run):
                         if a.name.split('.')[0] in ('random', 'time', 'uuid'):
                             banned.append(('supp/%s.py' % mod, 'import', a.name))
             V().visit(tree)
-        for key, cnt in sorted(found.items()):
+        uncovered = []
+        for key, sites in sorted(found.items()):
+            escaping = [(ln, why) for ln, why in sites if why]
             allowed = SET_SITES_ALLOWED.get(key)
-            prove('set-site-%s:%s' % key, allowed is not None and cnt <= allowed[0],
-                  clause='%d set construction(s) in %s %s: %s' % (cnt, key[0], key[1], allowed[1] if allowed else
-                                                                 'NOT LISTED - its iteration order may reach an ordered answer'), path=path)
+            if not escaping:
+                prove('set-site-%s:%s' % key, True, clause='%d set construction(s) in %s %s: every use is insensitive to iteration order' % (
+                    len(sites), key[0], key[1]), path=path)
+            elif allowed is not None and len(escaping) <= allowed[0]:
+                prove('set-site-%s:%s' % key, True, clause='%d set construction(s) in %s %s whose order may leave the function: %s' % (
+                    len(escaping), key[0], key[1], allowed[1]), path=path)
+            else:
+                uncovered.append('%s %s line %d: %s' % (key[0], key[1], escaping[0][0], escaping[0][1]))
         prove('no-identity-hash-random-time', not banned, clause='no id() / hash() / random / time in the analysis modules [%r]' % (banned,), path=path)
+        if uncovered:
+            raise core.EngineEscape('frame condition of C17 not covered: a set whose iteration order may reach an answer is constructed in a place '
+                                    'no contract accounts for: %s' % '; '.join(uncovered))
+    core.explore(lambda: None, lambda p, out: go(p))
+
+
+# ---------------------------------------------------------------------------
+# whole-API stand-in: every set of the analysis modules iterates in an adversarial order
+
+PERMSET_SRC = '''
+class PermSet(object):
+    """a set whose iteration order is chosen by the checker (the language leaves it unspecified): insertion order, its reverse, or rotated"""
+    MODE = 0
+
+    def __init__(self, it=()):
+        self._d = {}
+        for x in it:
+            self._d[x] = None
+
+    def __iter__(self):
+        ks = list(self._d)
+        if PermSet.MODE == 1:
+            ks.reverse()
+        elif PermSet.MODE == 2 and ks:
+            k = len(ks) // 2 + 1
+            ks = ks[k:] + ks[:k]
+        elif PermSet.MODE == 3:
+            ks = ks[1::2] + ks[0::2]
+        return iter(ks)
+
+    def __len__(self): return len(self._d)
+    def __contains__(self, x): return x in self._d
+    def __bool__(self): return bool(self._d)
+    def __eq__(self, o): return set(self._d) == set(o)
+    def __ne__(self, o): return not self == o
+    __hash__ = None
+    def __repr__(self): return 'PermSet(%r)' % (list(self),)
+    def add(self, x): self._d[x] = None
+    def discard(self, x): self._d.pop(x, None)
+    def remove(self, x): del self._d[x]
+    def clear(self): self._d.clear()
+    def copy(self): return PermSet(self._d)
+    def pop(self):
+        x = next(iter(self)); del self._d[x]; return x
+    def update(self, *others):
+        for o in others:
+            for x in o: self._d[x] = None
+    def difference_update(self, *others):
+        for o in others:
+            for x in list(o): self._d.pop(x, None)
+    def intersection_update(self, *others):
+        for o in others:
+            keep = set(o)
+            for x in list(self._d):
+                if x not in keep: del self._d[x]
+    def union(self, *others):
+        r = self.copy(); r.update(*others); return r
+    def difference(self, *others):
+        r = self.copy(); r.difference_update(*others); return r
+    def intersection(self, *others):
+        r = self.copy(); r.intersection_update(*others); return r
+    def symmetric_difference(self, o):
+        o = PermSet(o); return (self - o) | (o - self)
+    def issubset(self, o): return all(x in o for x in self._d)
+    def issuperset(self, o): return all(x in self._d for x in o)
+    def isdisjoint(self, o): return not any(x in self._d for x in o)
+    def __or__(self, o): return self.union(o)
+    def __ror__(self, o): return PermSet(o).union(self)
+    def __and__(self, o): return self.intersection(o)
+    def __rand__(self, o): return PermSet(o).intersection(self)
+    def __sub__(self, o): return self.difference(o)
+    def __rsub__(self, o): return PermSet(o).difference(self)
+    def __xor__(self, o): return self.symmetric_difference(o)
+    def __ior__(self, o): self.update(o); return self
+    def __iand__(self, o): self.intersection_update(o); return self
+    def __isub__(self, o): self.difference_update(o); return self
+    def __le__(self, o): return self.issubset(o)
+    def __ge__(self, o): return self.issuperset(o)
+    def __lt__(self, o): return self.issubset(o) and len(self) < len(o)
+    def __gt__(self, o): return self.issuperset(o) and len(self) > len(o)
+
+
+def install(mode):
+    import importlib
+    PermSet.MODE = mode
+    for m in ('assistant', 'linter', 'evaluator', 'name', 'scope', 'project', 'nast', 'module', 'util'):
+        mod = importlib.import_module('supp.' + m)
+        mod.__dict__['set'] = PermSet
+        mod.__dict__['frozenset'] = PermSet
+'''
+
+ORDER_CORPUS = [
+    ('four-branches', '''import os
+def f(c):
+    if c == 1:
+        x = os
+    elif c == 2:
+        x = 2
+    elif c == 3:
+        x = "s"
+    else:
+        x = []
+    zz = 1
+    yy = 2
+    undefined_one(undefined_two, x)
+    return x
+''', [(14, 12)], [(13, 35)]),
+    ('loop-and-try', '''def g(items):
+    acc = None
+    for it in items:
+        try:
+            val = it.a
+        except KeyError:
+            val = 0
+        except ValueError as e:
+            val = e
+        else:
+            other = 1
+        acc = val
+    while acc:
+        acc = step(acc, val)
+    unused_a = unused_b = 0
+    return acc, val
+''', [(16, 11), (16, 16)], [(14, 24)]),
+    ('class-attrs', '''class Base(object):
+    kind = 1
+    def method_b(self):
+        self.inst_b = 1
+class Mixin:
+    flag = True
+    def mix(self): pass
+class D(Base, Mixin):
+    own = 2
+    def method_d(self):
+        self.inst_d = self.own
+d = D()
+d.own
+b = Base() if d else D()
+b.kind
+''', [(13, 2), (15, 2)], [(13, 2), (15, 2)]),
+    ('closures-globals', '''import sys, os.path
+from os import path as p1, sep as s1
+count = 0
+def outer(a, b=1, *args, k=2, **kw):
+    global count
+    tmp = a
+    def inner():
+        nonlocal tmp
+        tmp = b
+        return tmp, k, args, kw, count, sys
+    lam = lambda q, r=tmp: (q, r, missing_name)
+    return inner, lam
+[v for v in (1, 2) if (w := v)]
+print(w, p1)
+''', [(15, 7), (10, 18)], [(15, 7)]),
+]
+
+ORDER_REPLAY = '''import sys, json; sys.path.insert(0, %(repo)r)
+''' + PERMSET_SRC.replace('%', '%%') + '''
+from supp.project import Project
+import supp.linter, supp.assistant
+src = %(src)r
+outs = []
+for mode in (0, %(mode)d):
+    install(mode)
+    p = Project(['/nonexistent'])
+    outs.append(%(call)s)
+print('sets iterated in insertion order :', outs[0])
+print('sets iterated in another order   :', outs[1])
+print('REPRODUCED: the answer depends on the iteration order of a set' if outs[0] != outs[1] else 'not reproduced')
+'''
+
+
+@harness(['C17'], 'supp.linter.lint / supp.assistant.assist / location [every set(...) of the analysis modules iterates in an adversarial order]',
+         bounded='4 programs (branches, loops and try, class hierarchy with instance attributes, closures / globals / imports / comprehension) x '
+                 '{lint, assist and location at 1-2 cursor positions} x 4 iteration orders of every set constructed through set() / frozenset() '
+                 '(insertion order, reversed, rotated, interleaved)')
+def api_independent_of_set_order(run):
+    """BOUNDED whole-API stand-in for the frame condition of C17: the real lint / assist / location with the name `set` of every analysis
+    module bound to a set whose iteration order the checker picks; the answers must not change with the order.  Not counted as proved."""
+    ns = {}
+    exec(PERMSET_SRC, ns)
+
+    def go(path):
+        import logging
+        import supp.project as Pj
+        import supp.linter as L
+        import supp.assistant as A
+        logging.disable(logging.CRITICAL)
+        for name, src, assist_at, loc_at in ORDER_CORPUS:
+            calls = [('lint', 'supp.linter.lint(p, src)', lambda p: [d[:4] for d in L.lint(p, src)])]
+            for pos in assist_at:
+                calls.append(('assist@%d:%d' % pos, 'supp.assistant.assist(p, src, %r)' % (pos,), lambda p, pos=pos: A.assist(p, src, pos)))
+            for pos in loc_at:
+                calls.append(('location@%d:%d' % pos, 'supp.assistant.location(p, src, %r)' % (pos,), lambda p, pos=pos: A.location(p, src, pos)))
+            for label, text, fn in calls:
+                outs = []
+                for mode in range(4):
+                    ns['install'](mode)
+                    try:
+                        outs.append(repr(fn(Pj.Project(['/nonexistent']))))
+                    except Exception as e:
+                        outs.append('raised %s: %s' % (type(e).__name__, e))
+                diff = [m for m in range(1, 4) if outs[m] != outs[0]]
+                if diff:
+                    core.RUN.concretise = lambda model, ob, src=src, text=text, m=diff[0]: {
+                        'input': {'program': name, 'call': text}, 'script': ORDER_REPLAY % {'repo': core.REPO, 'src': src, 'mode': m, 'call': text}}
+                prove('%s:%s-independent-of-set-order' % (name, label), not diff,
+                      clause='%s gives the same answer under every iteration order of the sets [%s]' % (
+                          text, 'same' if not diff else '%s  vs  %s' % (outs[0][:300], outs[diff[0]][:300])), path=path)
+                core.RUN.concretise = None
     core.explore(lambda: None, lambda p, out: go(p))
